@@ -683,11 +683,14 @@ package apd
 //@   ensures [formkeep] d.Form == Finite ==> old(x.Form) == Finite
 //@   ensures [shape] d.Negative == old(x.Negative) && (d.Form == old(x.Form) || d.Form == Infinite)
 //@   ensures [p0] !disableIfPrecisionZero && c.Precision == 0 && ctxsane(c) && r == c.Rounding && old(x.Form == Finite && inv(x) && inrange(x) && val(x.Coeff) != 0) && old(x.Exponent) + nd10(old(val(x.Coeff))) - 1 >= c.MinExponent && nd10(old(val(x.Coeff))) <= 100000 && old(x.Exponent) + nd10(old(val(x.Coeff))) <= c.MaxExponent && old(x.Exponent) + nd10(old(val(x.Coeff))) >= -100000 ==> (d.Form == Finite && val(d.Coeff) == RND(r, old(x.Negative), old(val(x.Coeff)), nd10(old(val(x.Coeff)))) && d.Exponent == old(x.Exponent) + nd10(old(val(x.Coeff))) && has(ret, Inexact) && has(ret, Rounded) && only(ret, Inexact | Rounded | Clamped))
+//@   ensures [p0zero] !disableIfPrecisionZero && c.Precision == 0 && ctxsane(c) && r == c.Rounding && old(x.Form == Finite && inv(x) && inrange(x) && val(x.Coeff) == 0) && old(x.Exponent) + 1 >= c.MinExponent && old(x.Exponent) + 1 <= c.MaxExponent ==> (d.Form == Finite && val(d.Coeff) == 0 && d.Exponent == old(x.Exponent) + 1 && none(ret, Inexact) && only(ret, Rounded | Clamped))
+//@   ensures [nadj] old(finwf(c, x)) && r == c.Rounding && old(val(x.Coeff)) != 0 ==> NADJ(c, old(x.Negative), old(val(x.Coeff)), old(x.Exponent)) == old(x.Exponent) + nd10(old(val(x.Coeff))) - 1 + NCARRY(c, old(x.Negative), old(val(x.Coeff))) && (NCARRY(c, old(x.Negative), old(val(x.Coeff))) == 1 ==> NSH(c, old(val(x.Coeff))) > 0)
 //@   ensures [zero] old(finwf(c, x)) && r == c.Rounding && old(val(x.Coeff)) == 0 ==> RZero(c, old(x.Negative), old(x.Exponent), d, ret)
 //@   ensures [sub] old(finwf(c, x)) && r == c.Rounding && old(val(x.Coeff)) != 0 && old(x.Exponent) + nd10(old(val(x.Coeff))) - 1 < c.MinExponent ==> RSub(c, old(x.Negative), old(val(x.Coeff)), old(x.Exponent), d, ret)
 //@   ensures [sys] old(finwf(c, x)) && r == c.Rounding && old(val(x.Coeff)) != 0 && old(x.Exponent) + nd10(old(val(x.Coeff))) - 1 >= c.MinExponent ==> (has(ret, SystemOverflow) <==> NSYS(c, old(x.Negative), old(val(x.Coeff)), old(x.Exponent))) && !has(ret, SystemUnderflow)
 //@   ensures [ovf] old(finwf(c, x)) && r == c.Rounding && old(val(x.Coeff)) != 0 && old(x.Exponent) + nd10(old(val(x.Coeff))) - 1 >= c.MinExponent && !NSYS(c, old(x.Negative), old(val(x.Coeff)), old(x.Exponent)) && NADJ(c, old(x.Negative), old(val(x.Coeff)), old(x.Exponent)) > c.MaxExponent ==> ROvf(old(x.Negative), d, ret)
 //@   ensures [norm] old(finwf(c, x)) && r == c.Rounding && old(val(x.Coeff)) != 0 && old(x.Exponent) + nd10(old(val(x.Coeff))) - 1 >= c.MinExponent && !NSYS(c, old(x.Negative), old(val(x.Coeff)), old(x.Exponent)) && NADJ(c, old(x.Negative), old(val(x.Coeff)), old(x.Exponent)) <= c.MaxExponent ==> RNorm(c, old(x.Negative), old(val(x.Coeff)), old(x.Exponent), d, ret)
+//@   ensures [q2] old(finwf(c, x)) && r == c.Rounding && old(val(x.Coeff)) != 0 && old(x.Exponent) + nd10(old(val(x.Coeff))) - 1 >= c.MinExponent && !NSYS(c, old(x.Negative), old(val(x.Coeff)), old(x.Exponent)) && NADJ(c, old(x.Negative), old(val(x.Coeff)), old(x.Exponent)) <= c.MaxExponent ==> ((d.Exponent == old(x.Exponent) + NSH(c, old(val(x.Coeff))) && val(d.Coeff) == NQ2(c, old(x.Negative), old(val(x.Coeff)))) || (d.Exponent == old(x.Exponent) + NSH(c, old(val(x.Coeff))) + 1 && 10 * val(d.Coeff) == NQ2(c, old(x.Negative), old(val(x.Coeff)))))
 
 // ---------------------------------------------------------------- context.go
 
@@ -1449,7 +1452,9 @@ package apd
 //@   hint pow10_add(nd10(val(v.Coeff)), exp - v.Exponent - nd10(val(v.Coeff)))
 //@   hint div_lt(val(v.Coeff), pow10(exp - v.Exponent), 1)
 //@   hint nd10(val(v.Coeff)) < exp - v.Exponent ==> 10 * pow10(nd10(val(v.Coeff))) <= pow10(exp - v.Exponent)
-//@   ensures [down] ctxsane(c) && old(v.Form == Finite && inrange(v)) && -100000 <= exp && exp <= 100000 && exp > old(v.Exponent) && nd10(old(val(v.Coeff))) - (exp - old(v.Exponent)) <= c.MaxExponent && c.MaxExponent >= 0 ==> (val(d.Coeff) == RND(c.Rounding, old(v.Negative), old(val(v.Coeff)), exp - old(v.Exponent)) && d.Exponent == exp && d.Form == Finite && (has(ret, Inexact) <==> RR(old(val(v.Coeff)), exp - old(v.Exponent)) != 0) && (has(ret, Inexact) ==> has(ret, Rounded)) && only(ret, Inexact | Rounded | Clamped))
+//@   ensures [downneg] ctxsane(c) && old(v.Form == Finite && inrange(v)) && -100000 <= exp && exp <= 100000 && exp > old(v.Exponent) && exp - old(v.Exponent) <= 100000 && nd10(old(val(v.Coeff))) < exp - old(v.Exponent) && nd10(old(val(v.Coeff))) - (exp - old(v.Exponent)) <= c.MaxExponent && c.MaxExponent >= 0 ==> (val(d.Coeff) == RND(c.Rounding, old(v.Negative), old(val(v.Coeff)), exp - old(v.Exponent)) && d.Exponent == exp && d.Form == Finite && (has(ret, Inexact) <==> RR(old(val(v.Coeff)), exp - old(v.Exponent)) != 0) && (has(ret, Inexact) ==> has(ret, Rounded)) && only(ret, Inexact | Rounded | Clamped))
+//@   ensures [downzero] ctxsane(c) && old(v.Form == Finite && inrange(v)) && -100000 <= exp && exp <= 100000 && exp > old(v.Exponent) && exp - old(v.Exponent) <= 100000 && nd10(old(val(v.Coeff))) == exp - old(v.Exponent) && nd10(old(val(v.Coeff))) - (exp - old(v.Exponent)) <= c.MaxExponent && c.MaxExponent >= 0 ==> (val(d.Coeff) == RND(c.Rounding, old(v.Negative), old(val(v.Coeff)), exp - old(v.Exponent)) && d.Exponent == exp && d.Form == Finite && (has(ret, Inexact) <==> RR(old(val(v.Coeff)), exp - old(v.Exponent)) != 0) && (has(ret, Inexact) ==> has(ret, Rounded)) && only(ret, Inexact | Rounded | Clamped))
+//@   ensures [downpos] ctxsane(c) && old(v.Form == Finite && inrange(v)) && -100000 <= exp && exp <= 100000 && exp > old(v.Exponent) && exp - old(v.Exponent) <= 100000 && nd10(old(val(v.Coeff))) > exp - old(v.Exponent) && nd10(old(val(v.Coeff))) - (exp - old(v.Exponent)) <= c.MaxExponent && c.MaxExponent >= 0 ==> hassys(ret) || (val(d.Coeff) == RND(c.Rounding, old(v.Negative), old(val(v.Coeff)), exp - old(v.Exponent)) && d.Exponent == exp && d.Form == Finite && (has(ret, Inexact) <==> RR(old(val(v.Coeff)), exp - old(v.Exponent)) != 0) && (has(ret, Inexact) ==> has(ret, Rounded)) && only(ret, Inexact | Rounded | Clamped))
 //@   ensures [up] old(inrange(v)) && -100000 <= exp && exp <= 100000 && exp <= old(v.Exponent) && old(v.Exponent) - exp <= 100000 ==> (val(d.Coeff) == old(val(v.Coeff)) * pow10(old(v.Exponent) - exp) && d.Exponent == exp && ret == 0)
 
 //@ func (*Context).toIntegral
